@@ -115,6 +115,9 @@ func (g *specGen) next() callSpec {
 					}
 					r += fnName
 				}
+				if rng.Intn(10) == 0 && strings.Contains(r, ",") {
+					r = strings.Replace(r, ",", ", ", 1) // a blank after a comma (the token " to" names no rule; the map must stay as written)
+				}
 				rm[sf.Name] = r
 			}
 		}
@@ -206,6 +209,9 @@ func (g *specGen) next() callSpec {
 		is := make([]int, n)
 		for i := range ss {
 			ss[i] = fmt.Sprintf("e%02d", rng.Intn(80))
+			if rng.Intn(3) == 0 {
+				ss[i] = []string{" 1", "7 ", "12", " 3 ", "4"}[rng.Intn(5)] // blank-padded elements must come back as they went in
+			}
 			is[i] = rng.Intn(80)
 		}
 		rule := []string{"unique|m_u", "unique", "unique,ge=3|m_g", "ints|m_i,unique", "le=100,unique|m_u"}[rng.Intn(5)]
